@@ -1,4 +1,5 @@
 #!/bin/bash
+# (SEED_FAST=1, the default here, skips re-confirming each change: suite and demo runs; SEED_FAST=0 does everything)
 # Re-evaluates every stored seeded change against the check(s) recorded as catching it (quick tier) and
 # prints a summary. Applies each patch to /repo and undoes it; /repo must be clean and otherwise unused.
 cd /verif
@@ -6,7 +7,7 @@ fail=0
 for d in seeded/*/; do
   id=$(basename $d)
   checks=$(python3 -c "import json;m=json.load(open('$d/meta.json'));print(' '.join(m.get('detected_by') or [m['property']]))")
-  out=$(./seedeval.py $d $id $checks 2>&1 | tail -1)
+  out=$(SEED_FAST=${SEED_FAST:-1} ./seedeval.py $d $id $checks 2>&1 | tail -1)
   echo "$out"
   case "$out" in *"confirmed=True detected_by=['"*) ;; *) fail=$((fail+1));; esac
 done
